@@ -165,7 +165,7 @@ impl Property for C02 {
     fn runs(&self, tier: Tier) -> u64 {
         match tier {
             Tier::Quick => 40_000,
-            Tier::Thorough => 2_000_000,
+            Tier::Thorough => 1_200_000,
         }
     }
     fn generate(&self, rng: &mut Rng, tier: Tier) -> Scenario {
